@@ -578,6 +578,11 @@ fn attributes(node: dom::XmlNode) -> Vec<dom::XmlNode> {
 fn child(node: dom::XmlNode) -> Vec<dom::XmlNode> {
     let mut nodes = vec![];
 
+    // The DOM keeps the value of an attribute in child nodes; in XPath it has no children.
+    if let dom::XmlNode::Attribute(_) = node {
+        return nodes;
+    }
+
     for c in node.child_nodes().iter() {
         nodes.push(c.clone());
     }
@@ -588,7 +593,7 @@ fn child(node: dom::XmlNode) -> Vec<dom::XmlNode> {
 fn descendant(node: dom::XmlNode) -> Vec<dom::XmlNode> {
     let mut nodes = vec![];
 
-    for child in node.child_nodes().iter() {
+    for child in child(node) {
         nodes.push(child.clone());
 
         let mut desc = descendant(child);
